@@ -1,0 +1,24 @@
+// Copyright Suneido Software Corp. All rights reserved.
+// Governed by the MIT license found in the LICENSE file.
+
+//go:build verif
+
+package core
+
+// VerifTsState is the client side timestamp batch state (see Thread.Timestamp)
+type VerifTsState struct {
+	Last  SuDate
+	Count int
+	Limit int
+}
+
+// VerifTsSwap installs s as the client timestamp batch state
+// and returns the previous one, so that a verification harness
+// can run several logical clients in one process.
+func VerifTsSwap(s VerifTsState) VerifTsState {
+	tsLock.Lock()
+	defer tsLock.Unlock()
+	old := VerifTsState{Last: tsLast, Count: tsCount, Limit: tsLimit}
+	tsLast, tsCount, tsLimit = s.Last, s.Count, s.Limit
+	return old
+}
